@@ -234,27 +234,111 @@ def emitted : List Entry → Int → List Entry
     else if e.offset = lastOff then emitted es lastOff
     else e :: emitted es e.offset
 
-theorem entryLoop_eq (es : List Entry) (lo : Int) (acc : List Range) (hr : Bool) :
-    entryLoop es lo acc hr =
-      (((emitted es lo).map single).foldl coalesceRev acc, hr || (emitted es lo).any (fun e => e.status == 4)) := by
-  induction es generalizing lo acc hr with
-  | nil => simp [entryLoop, emitted]
+/-- Gap ranges of a sorted list that start below `off`, and the others. -/
+def below : List Range → Int → List Range
+  | [], _ => []
+  | g :: gs, off => if g.first < off then g :: below gs off else []
+
+def notBelow : List Range → Int → List Range
+  | [], _ => []
+  | g :: gs, off => if g.first < off then notBelow gs off else g :: gs
+
+theorem takeGapsBelow_eq (gs : List Range) (off : Int) (acc : List Range) :
+    takeGapsBelow gs off acc = ((below gs off).foldl coalesceRev acc, notBelow gs off) := by
+  induction gs generalizing acc with
+  | nil => rfl
+  | cons g gs ih =>
+    simp only [takeGapsBelow, below, notBelow]
+    split
+    · rw [ih]; rfl
+    · rfl
+
+/-- The list the repaired loop feeds to `coalesceAppendRange`, in order: before each emitted entry the gap
+ranges starting below it, the remaining gap ranges last. -/
+def interleave : List Entry → List Range → List Range
+  | [], gs => gs
+  | e :: es, gs => below gs e.offset ++ single e :: interleave es (notBelow gs e.offset)
+
+theorem entryLoop_eq (es : List Entry) (lo : Int) (acc gaps : List Range) (hr : Bool) :
+    (entryLoop es lo acc gaps hr).2.1.foldl coalesceRev (entryLoop es lo acc gaps hr).1 =
+        (interleave (emitted es lo) gaps).foldl coalesceRev acc ∧
+    (entryLoop es lo acc gaps hr).2.2 = (hr || (emitted es lo).any (fun e => e.status == 4)) := by
+  induction es generalizing lo acc gaps hr with
+  | nil => simp [entryLoop, emitted, interleave]
   | cons e es ih =>
     simp only [entryLoop, emitted]
     split
     · exact ih ..
     · split
       · exact ih ..
-      · rw [ih]; simp [Bool.or_assoc]
+      · obtain ⟨h1, h2⟩ := ih e.offset (coalesceRev (takeGapsBelow gaps e.offset acc).1 (single e))
+          (takeGapsBelow gaps e.offset acc).2 (hr || e.status == 4)
+        refine ⟨?_, by rw [h2]; simp [Bool.or_assoc]⟩
+        rw [h1, takeGapsBelow_eq]
+        simp [interleave, List.foldl_append]
 
 theorem build_fst (es : List Entry) (gs : List Range) :
     (buildAckRanges es gs).1 =
-      ((sortGaps gs).foldl coalesceRev (((emitted (sortEntries es) (-1)).map single).foldl coalesceRev [])).reverse := by
-  simp [buildAckRanges, entryLoop_eq]
+      ((interleave (emitted (sortEntries es) (-1)) (sortGaps gs)).foldl coalesceRev []).reverse := by
+  simp only [buildAckRanges]
+  rw [(entryLoop_eq _ _ _ _ _).1]
 
 theorem build_snd (es : List Entry) (gs : List Range) :
     (buildAckRanges es gs).2 = (emitted (sortEntries es) (-1)).any (fun e => e.status == 4) := by
-  simp [buildAckRanges, entryLoop_eq]
+  simp only [buildAckRanges]
+  rw [(entryLoop_eq _ _ _ _ _).2]; simp
+
+theorem below_append_notBelow (gs : List Range) (off : Int) : below gs off ++ notBelow gs off = gs := by
+  induction gs with
+  | nil => rfl
+  | cons g gs ih =>
+    simp only [below, notBelow]
+    split
+    · simp [ih]
+    · simp
+
+theorem below_lt (gs : List Range) (off : Int) : ∀ x ∈ below gs off, x.first < off := by
+  induction gs with
+  | nil => simp [below]
+  | cons g gs ih =>
+    simp only [below]
+    split
+    · intro x hx
+      rcases List.mem_cons.1 hx with h | h
+      · subst h; assumption
+      · exact ih x h
+    · simp
+
+theorem notBelow_ge (gs : List Range) (off : Int) (hs : gs.Pairwise (fun a b => a.first ≤ b.first)) :
+    ∀ x ∈ notBelow gs off, off ≤ x.first := by
+  induction gs with
+  | nil => simp [notBelow]
+  | cons g gs ih =>
+    obtain ⟨h1, h2⟩ := List.pairwise_cons.1 hs
+    simp only [notBelow]
+    split
+    · exact ih h2
+    · intro x hx
+      rcases List.mem_cons.1 hx with h | h
+      · subst h; omega
+      · have := h1 x h; omega
+
+theorem interleave_perm (em : List Entry) (gs : List Range) : (interleave em gs).Perm (em.map single ++ gs) := by
+  induction em generalizing gs with
+  | nil => simp [interleave]
+  | cons e em ih =>
+    simp only [interleave, List.map_cons, List.cons_append]
+    have h1 := ih (notBelow gs e.offset)
+    have h2 : (below gs e.offset ++ single e :: (em.map single ++ notBelow gs e.offset)).Perm
+        (single e :: (em.map single ++ gs)) := by
+      refine List.perm_middle.trans (List.Perm.cons _ ?_)
+      have : (below gs e.offset ++ (em.map single ++ notBelow gs e.offset)).Perm
+          (em.map single ++ (below gs e.offset ++ notBelow gs e.offset)) := by
+        rw [← List.append_assoc, ← List.append_assoc]
+        exact List.Perm.append_right _ List.perm_append_comm
+      rw [below_append_notBelow] at this
+      exact this
+    exact (List.Perm.append_left _ (List.Perm.cons _ h1)).trans h2
 
 /-! #### coverage -/
 
@@ -265,6 +349,9 @@ theorem cov_cons (r : Range) (rs : List Range) (o : Int) :
 
 theorem cov_append (a b : List Range) (o : Int) : cov (a ++ b) o = cov a o ++ cov b o := by
   simp [cov]
+
+theorem cov_perm {a b : List Range} (h : a.Perm b) (o : Int) : (cov a o).Perm (cov b o) :=
+  (h.filter _).map _
 
 theorem cov_reverse (a : List Range) (o : Int) : cov a.reverse o = (cov a o).reverse := by
   simp [cov, List.filter_reverse]
@@ -326,13 +413,21 @@ theorem wf_single (l : List Entry) : ∀ x ∈ l.map single, x.first ≤ x.last 
   obtain ⟨e, _, rfl⟩ := List.mem_map.1 hx
   simp [single]
 
-/-- What the output covers: the emitted user entries, then the gap ranges. -/
+/-- What the output covers: the emitted user entries and the gap ranges (as a multiset of types per offset). -/
 theorem cov_build (es : List Entry) (gs : List Range) (o : Int) (hg : ∀ g ∈ gs, g.first ≤ g.last) :
-    cov (buildAckRanges es gs).1 o = cov ((emitted (sortEntries es) (-1)).map single) o ++ cov (sortGaps gs) o := by
+    (cov (buildAckRanges es gs).1 o).Perm
+      (cov ((emitted (sortEntries es) (-1)).map single) o ++ cov (sortGaps gs) o) := by
   have hsg : ∀ g ∈ sortGaps gs, g.first ≤ g.last := fun g h => hg g ((List.mergeSort_perm _ _).mem_iff.1 h)
-  have hu := wf_foldl ((emitted (sortEntries es) (-1)).map single) [] (by simp) (wf_single _)
-  rw [build_fst, cov_reverse, cov_foldl _ _ o hu hsg, cov_foldl _ _ o (by simp) (wf_single _)]
-  simp [cov_reverse, cov]
+  have hperm := interleave_perm (emitted (sortEntries es) (-1)) (sortGaps gs)
+  have hL : ∀ x ∈ interleave (emitted (sortEntries es) (-1)) (sortGaps gs), x.first ≤ x.last := by
+    intro x hx
+    rcases List.mem_append.1 (hperm.mem_iff.1 hx) with h | h
+    · exact wf_single _ x h
+    · exact hsg x h
+  rw [build_fst, cov_reverse, cov_foldl _ _ o (by simp) hL, cov_reverse]
+  have : cov ([] : List Range) o = [] := rfl
+  rw [this, List.append_nil, List.reverse_reverse, ← cov_append]
+  exact cov_perm hperm o
 
 theorem cov_singles (l : List Entry) (o : Int) :
     cov (l.map single) o = (l.filter (fun e => e.offset == o)).map (·.status) := by
@@ -685,18 +780,17 @@ theorem em_complete {es : List Entry} {gs : List Range} (h : WfInput es gs) (e :
   emitted_complete (sortEntries es) (-1) (sortEntries_sorted es) e ((sortEntries_mem es e).2 he) hl
     (by have := h.offs e he; omega)
 
-theorem cov_perm {a b : List Range} (h : a.Perm b) (o : Int) : (cov a o).Perm (cov b o) :=
-  (h.filter _).map _
-
 /-! #### coverage of the built ranges -/
 
-theorem build_cov_eq (es : List Entry) (gs : List Range) (o : Int) (h : WfInput es gs) :
-    cov (buildAckRanges es gs).1 o = ((em es).filter (fun e => e.offset == o)).map (·.status) ++ cov (sortGaps gs) o := by
-  rw [cov_build es gs o (fun g hg => (h.gaps g hg).2.1), cov_singles]
+theorem build_cov_perm (es : List Entry) (gs : List Range) (o : Int) (h : WfInput es gs) :
+    (cov (buildAckRanges es gs).1 o).Perm
+      (((em es).filter (fun e => e.offset == o)).map (·.status) ++ cov (sortGaps gs) o) := by
+  have := cov_build es gs o (fun g hg => (h.gaps g hg).2.1)
+  rwa [cov_singles] at this
 
 theorem build_cov_length (es : List Entry) (gs : List Range) (o : Int) (h : WfInput es gs) :
     (cov (buildAckRanges es gs).1 o).length ≤ 1 := by
-  rw [build_cov_eq es gs o h, List.length_append, List.length_map]
+  rw [(build_cov_perm es gs o h).length_eq, List.length_append, List.length_map]
   have h1 : ((em es).filter (fun e => e.offset == o)).length ≤ 1 :=
     filter_length_le_one _ _ ((em_pairwise h).imp (fun {a b} hab => by simp; omega))
   have hd' : (sortGaps gs).Pairwise Disj :=
@@ -723,7 +817,7 @@ theorem build_cov_length (es : List Entry) (gs : List Range) (o : Int) (h : WfIn
 
 theorem build_cov_sound (es : List Entry) (gs : List Range) (o t : Int) (h : WfInput es gs)
     (ht : t ∈ cov (buildAckRanges es gs).1 o) : t ∈ covIn es gs o := by
-  rw [build_cov_eq es gs o h] at ht
+  have ht := (build_cov_perm es gs o h).mem_iff.1 ht
   rcases List.mem_append.1 ht with h1 | h1
   · obtain ⟨x, hx, rfl⟩ := List.mem_map.1 h1
     obtain ⟨hxm, hxo⟩ := List.mem_filter.1 hx
@@ -734,7 +828,7 @@ theorem build_cov_sound (es : List Entry) (gs : List Range) (o t : Int) (h : WfI
 
 theorem build_cov_complete (es : List Entry) (gs : List Range) (o : Int) (h : WfInput es gs)
     (hin : covIn es gs o ≠ []) : cov (buildAckRanges es gs).1 o ≠ [] := by
-  rw [build_cov_eq es gs o h]
+  have hp := build_cov_perm es gs o h
   obtain ⟨t, ht⟩ := List.exists_mem_of_ne_nil _ hin
   rcases List.mem_append.1 ht with h1 | h1
   · obtain ⟨e, he, rfl⟩ := List.mem_map.1 h1
@@ -743,9 +837,91 @@ theorem build_cov_complete (es : List Entry) (gs : List Range) (o : Int) (h : Wf
     obtain ⟨x, hx, hxo⟩ := em_complete h e hem hc.1
     have : x.status ∈ ((em es).filter (fun e => e.offset == o)).map (·.status) :=
       List.mem_map.2 ⟨x, List.mem_filter.2 ⟨hx, by simp; omega⟩, rfl⟩
-    exact List.ne_nil_of_mem (List.mem_append.2 (Or.inl this))
+    exact List.ne_nil_of_mem (hp.mem_iff.2 (List.mem_append.2 (Or.inl this)))
   · have := (cov_perm (sortGaps_perm gs) o).mem_iff.2 h1
-    exact List.ne_nil_of_mem (List.mem_append.2 (Or.inr this))
+    exact List.ne_nil_of_mem (hp.mem_iff.2 (List.mem_append.2 (Or.inr this)))
+
+/-! #### ordering of the interleaved list -/
+
+theorem notBelow_sublist (gs : List Range) (off : Int) : (notBelow gs off).Sublist gs := by
+  induction gs with
+  | nil => simp [notBelow]
+  | cons g gs ih =>
+    simp only [notBelow]
+    split
+    · exact ih.cons _
+    · exact List.Sublist.refl _
+
+theorem below_sublist (gs : List Range) (off : Int) : (below gs off).Sublist gs := by
+  induction gs with
+  | nil => simp [below]
+  | cons g gs ih =>
+    simp only [below]
+    split
+    · exact ih.cons₂ _
+    · exact List.nil_sublist _
+
+theorem interleave_mem (em : List Entry) (gs : List Range) (x : Range) :
+    x ∈ interleave em gs ↔ (∃ e ∈ em, x = single e) ∨ x ∈ gs := by
+  rw [(interleave_perm em gs).mem_iff, List.mem_append, List.mem_map]
+  constructor
+  · rintro (⟨e, he, rfl⟩ | h)
+    · exact Or.inl ⟨e, he, rfl⟩
+    · exact Or.inr h
+  · rintro (⟨e, he, rfl⟩ | h)
+    · exact Or.inl ⟨e, he, rfl⟩
+    · exact Or.inr h
+
+/-- The interleaved list is ascending and non-overlapping when the emitted offsets are strictly increasing,
+the gap ranges are ascending and no emitted offset lies in a gap range. -/
+theorem interleave_ascList (em : List Entry) (gs : List Range)
+    (hem : em.Pairwise (fun a b => a.offset < b.offset)) (hgs : AscList gs)
+    (hap : ∀ e ∈ em, ∀ g ∈ gs, ¬ (g.first ≤ e.offset ∧ e.offset ≤ g.last)) : AscList (interleave em gs) := by
+  induction em generalizing gs with
+  | nil => simpa [interleave] using hgs
+  | cons e em ih =>
+    obtain ⟨he1, he2⟩ := List.pairwise_cons.1 hem
+    obtain ⟨hp, hw⟩ := hgs
+    have hsorted : gs.Pairwise (fun a b => a.first ≤ b.first) := by
+      have hw2 : gs.Pairwise (fun a b => a.first ≤ a.last) := by
+        rw [List.pairwise_iff_forall_sublist]
+        intro a b hab
+        exact hw a (hab.subset (by simp))
+      exact (hp.and hw2).imp (fun {a b} h => by omega)
+    have hnb_sub := notBelow_sublist gs e.offset
+    have hb_sub := below_sublist gs e.offset
+    have hrest : AscList (interleave em (notBelow gs e.offset)) :=
+      ih _ he2 ⟨hp.sublist hnb_sub, fun x hx => hw x (hnb_sub.subset hx)⟩
+        (fun e' he' g hg => hap e' (by simp [he']) g (hnb_sub.subset hg))
+    -- every later element starts above e.offset
+    have hafter : ∀ x ∈ interleave em (notBelow gs e.offset), e.offset < x.first := by
+      intro x hx
+      rcases (interleave_mem _ _ x).1 hx with ⟨e', he', rfl⟩ | hg
+      · simpa [single] using he1 e' he'
+      · have h1 := notBelow_ge gs e.offset hsorted x hg
+        have h2 := hap e (by simp) x (hnb_sub.subset hg)
+        have h3 := hw x (hnb_sub.subset hg)
+        omega
+    -- every gap emitted before ends below e.offset
+    have hbefore : ∀ a ∈ below gs e.offset, a.last < e.offset := by
+      intro a ha
+      have h1 := below_lt gs e.offset a ha
+      have h2 := hap e (by simp) a (hb_sub.subset ha)
+      omega
+    simp only [interleave]
+    refine ⟨List.pairwise_append.2 ⟨hp.sublist hb_sub, List.pairwise_cons.2 ⟨?_, hrest.1⟩, ?_⟩, ?_⟩
+    · intro x hx; simpa [single] using hafter x hx
+    · intro a ha b hb
+      have := hbefore a ha
+      rcases List.mem_cons.1 hb with h | h
+      · subst h; simpa [single] using this
+      · have := hafter b h; omega
+    · intro x hx
+      rcases List.mem_append.1 hx with h | h
+      · exact hw x (hb_sub.subset h)
+      · rcases List.mem_cons.1 h with h' | h'
+        · subst h'; simp [single]
+        · exact hrest.2 x h'
 
 /-! ### Part C — filterStaleEntries -/
 
